@@ -297,6 +297,7 @@ fn check(id: &str, tier: Tier) -> i32 {
         eprintln!("no check registered for property {id}");
         return 2;
     };
+    *crate::kernel::ctx::FOCUS.lock().unwrap() = Some(vec![id.to_string()]);
     let base_seed = env_u64("VERIF_SEED").unwrap_or(1);
     println!("VERIF_SEED={base_seed} property={id} tier={}", tier.as_str());
     let workers = env_u64("VERIF_WORKERS")
@@ -628,6 +629,7 @@ fn replay(path: &Path, verbose: bool) -> i32 {
         eprintln!("unknown world {}", rf.world);
         return 2;
     };
+    *crate::kernel::ctx::FOCUS.lock().unwrap() = Some(vec![rf.property.clone()]);
     let out = replay_file(&w, &rf, true);
     if verbose {
         for l in &out.lines {
